@@ -109,7 +109,9 @@ pub fn cases(tier: Tier) -> Vec<Case> {
             out.push(Case::Hist { init: Init::Spec(t.clone()), ops: vec![Op::Elim] });
             if t.n_nodes() >= 5 && i % 4 == 0 {
                 // a root cache holding several user-stored sample inputs (all valid witnesses of the root)
-                out.push(Case::Hist { init: Init::Seeded(Box::new(Init::Spec(t)), vec![vec![-3.0], vec![-1.0], vec![0.5], vec![5.0]]), ops: vec![Op::Elim] });
+                out.push(Case::Hist { init: Init::Seeded(Box::new(Init::Spec(t.clone())), vec![vec![-3.0], vec![-1.0], vec![0.5], vec![5.0]]), ops: vec![Op::Elim] });
+                // ... or marked Feasible without any witness
+                out.push(Case::Hist { init: Init::Seeded(Box::new(Init::Spec(t)), vec![]), ops: vec![Op::Elim] });
             }
         }
     }
@@ -126,12 +128,21 @@ pub fn cases(tier: Tier) -> Vec<Case> {
             out.push(Case::Hist { init: Init::Spec(t.clone()), ops: vec![Op::Elim] });
             if t.n_nodes() >= 5 && i % 4 == 0 {
                 out.push(Case::Hist { init: Init::Seeded(Box::new(Init::Spec(t.clone())), vec![vec![-1.0, -1.0], vec![2.0, -1.0], vec![-1.0, 2.0], vec![2.0, 1.0]]), ops: vec![Op::Elim] });
+                out.push(Case::Hist { init: Init::Seeded(Box::new(Init::Spec(t.clone())), vec![]), ops: vec![Op::Elim] });
                 // slicing with remove_axes (the removed coordinate is fixed to 0) between or before eliminations
                 for keep_first in [true, false] {
                     out.push(Case::Hist { init: Init::Spec(t.clone()), ops: vec![Op::Elim, Op::RemoveAxes(vec![keep_first, !keep_first]), Op::Elim] });
                     out.push(Case::Hist { init: Init::Spec(t.clone()), ops: vec![Op::RemoveAxes(vec![keep_first, !keep_first]), Op::Elim] });
                 }
             }
+        }
+    }
+    // trees over R^0 (every axis sliced away): predicates 0 <= b, all total trees with <= 7 nodes
+    {
+        let z = |b: f64| Aff::with_indim(vec![vec![]], vec![b], 0);
+        let g0 = TreeGen { k: 2, preds: vec![z(-1.0), z(0.0), z(1.0)], terms: vec![z(1.0), z(2.0)], max_depth: 3, max_nodes: 7, partial: false };
+        for t in g0.all() {
+            out.push(Case::Hist { init: Init::Spec(t), ops: vec![Op::Elim] });
         }
     }
     // nearly coincident parallel facets at a large offset: the "both inactive" region of the two neurons
